@@ -794,7 +794,19 @@ def prepare_dump(data: IOData, allow_changes: bool, filename: str) -> IOData:
     if data.mo.kind == "generalized":
         raise PrepareDumpError("Cannot write Molden file with generalized orbitals.", filename)
     data = prepare_unrestricted_aminusb(data, allow_changes, filename, "Molden")
-    return prepare_segmented(data, False, allow_changes, filename, "Molden")
+    data = prepare_segmented(data, False, allow_changes, filename, "Molden")
+    # The Molden format does not support mixed Cartesian and pure functions for the same
+    # angular momentum. Reject such a basis here, before dump_one opens (and truncates) the file.
+    angmom_kinds = {}
+    for shell in data.obasis.shells:
+        for angmom, kind in zip(shell.angmoms, shell.kinds):
+            if angmom_kinds.setdefault(angmom, kind) != kind:
+                raise PrepareDumpError(
+                    "Molden format does not support mixed pure+Cartesian functions for one "
+                    "angular momentum.",
+                    filename,
+                )
+    return data
 
 
 @document_dump_one("Molden", ["atcoords", "atnums", "mo", "obasis"], ["atcorenums", "title"])
